@@ -67,6 +67,7 @@ type vfC13World struct {
 	lastVisible map[string]string // model-visible set at the previous completed pull
 	lastEff     map[string]uint64 // model access at the previous completed pull
 	lostSince   map[string]bool   // channels the user had at the previous pull and was without at some point since
+	PullStart   uint64            // the replica's position when the current pull started
 	AccessOps   []uint64          // sequences of the operations since the previous completed pull that changed the client user's grant sources
 	Pulls       []vfC13PullStats
 
@@ -252,6 +253,7 @@ func (w *vfC13World) Pull(limits []int) (fail *vfC13Fail, err error) {
 	}
 	st := vfC13PullStats{}
 	startSince := w.R.Since
+	w.PullStart = w.R.LowPos()
 	var trace []string
 	for page := 0; ; page++ {
 		limit := limits[len(limits)-1]
